@@ -474,6 +474,80 @@ example : policyVector extOps epsExt 0 0 [(0, Ext.fin 1), (1, Ext.fin (-1))]
 example : policyVectorWith extOps divisorPinned epsExt 0 0 [(0, Ext.fin 1), (1, Ext.fin (-1))] = none := by
   decide +kernel
 
+/-! ## the fixed code on extended values: finite in, finite out -/
+
+theorem ext_sum_fin (l : List ℚ) (acc : ℚ) :
+    (l.map Ext.fin).foldl Ext.add (Ext.fin acc) = Ext.fin (acc + l.sum) := by
+  induction l generalizing acc with
+  | nil => simp
+  | cons x xs ih =>
+    simp only [List.map_cons, List.foldl_cons, List.sum_cons]
+    rw [show Ext.add (Ext.fin acc) (Ext.fin x) = Ext.fin (acc + x) from rfl, ih]
+    congr 1; ring
+
+theorem ext_floor_fin (ε : ℚ) {d : ℕ} (hd : d ≠ 0) (dv : ℕ → ℕ) (t : ℕ) (hdv : dv t = d) (r : ℚ) :
+    extOps.fmax (cumulated extOps dv t (Ext.fin r)) (Ext.fin ε) = Ext.fin (fl ε d r) := by
+  have hq : ((d : ℕ) : ℚ) ≠ 0 := by exact_mod_cast hd
+  have hc : cumulated extOps dv t (Ext.fin r) = Ext.fin (r / d) := by
+    simp [cumulated, extOps, Ext.div, hdv, hq]
+  rw [hc]
+  unfold fl
+  by_cases h : r / d < ε
+  · simp [extOps, Ext.fmax, Ext.lt, h, max_eq_right h.le]
+  · simp [extOps, Ext.fmax, Ext.lt, h, max_eq_left (not_lt.1 h)]
+
+/-- **the extended model agrees with exact arithmetic whenever the divisor is not 0**: finite
+    stored regrets in, the finite probabilities `p_a` out — no `inf`, no `NaN`, no abort. Together
+    with `divisor_pos` this is the `fix:` of F-C09 on the model that *can* express the failure
+    (`C09_epoch0_defect` is the same computation with divisor 0). -/
+theorem C09_fixed_finite {κ : Type} {ε : ℚ} (hε : 0 < ε) (dv : ℕ → ℕ) (t : ℕ) (hdv : dv t ≠ 0)
+    (kv : List (κ × ℚ)) (hne : kv ≠ []) :
+    policyVectorWith extOps dv (Ext.fin ε) (RP.Discount.walker t) t (kv.map fun ar => (ar.1, Ext.fin ar.2))
+      = some (kv.map fun ar => (ar.1, Ext.fin (prob ε (dv t) (kv.map (·.2)) ar.2))) := by
+  have hfloored : floored extOps dv (Ext.fin ε) t (kv.map fun ar => (ar.1, Ext.fin ar.2))
+      = kv.map (fun ar => (ar.1, Ext.fin (fl ε (dv t) ar.2))) := by
+    unfold floored
+    rw [List.map_map]
+    apply List.map_congr_left
+    intro x _
+    simp only [Function.comp_apply, ext_floor_fin ε hdv dv t rfl]
+  have hsum : extOps.sum ((kv.map (fun ar => (ar.1, Ext.fin (fl ε (dv t) ar.2)))).map (·.2))
+      = Ext.fin (S ε (dv t) (kv.map (·.2))) := by
+    have h1 : (kv.map (fun ar => (ar.1, Ext.fin (fl ε (dv t) ar.2)))).map (·.2)
+        = ((kv.map (·.2)).map (fl ε (dv t))).map Ext.fin := by
+      simp [List.map_map, Function.comp_def]
+    rw [h1]
+    unfold Ops.sum
+    have := ext_sum_fin ((kv.map (·.2)).map (fl ε (dv t))) 0
+    simpa [extOps, S] using this
+  have hS : S ε (dv t) (kv.map (·.2)) ≠ 0 := (S_pos hε (dv t) (by simpa using hne)).ne'
+  have hps : (floored extOps dv (Ext.fin ε) t (kv.map fun ar => (ar.1, Ext.fin ar.2))).map
+        (fun ax => (ax.1, extOps.div ax.2
+          (extOps.sum ((floored extOps dv (Ext.fin ε) t (kv.map fun ar => (ar.1, Ext.fin ar.2))).map (·.2)))))
+      = kv.map fun ar => (ar.1, Ext.fin (prob ε (dv t) (kv.map (·.2)) ar.2)) := by
+    rw [hfloored, hsum, List.map_map]
+    apply List.map_congr_left
+    intro ar _
+    simp [extOps, Ext.div, hS, prob]
+  unfold policyVectorWith
+  rw [if_neg (by simp)]
+  simp only [hps]
+  rw [if_pos]
+  rw [List.all_eq_true]
+  intro ap hap
+  obtain ⟨ar, har, rfl⟩ := List.mem_map.1 hap
+  have hmem : ar.2 ∈ kv.map (·.2) := List.mem_map.2 ⟨ar, har, rfl⟩
+  have h0 := (prob_pos hε (dv t) hmem).le
+  have h1 := prob_le_one hε (dv t) hmem
+  simp [okProb, extOps, Ext.le, RP.Gen.C09.assertLo, RP.Gen.C09.assertHi, h0, h1]
+
+/-- the code as it is now, every epoch counter (0 included), every finite stored regret vector:
+    the extended-value computation stays finite and returns the probabilities of the ℚ theorems -/
+theorem C09_fixed_never_nan {κ : Type} (t : ℕ) (kv : List (κ × ℚ)) (hne : kv ≠ []) :
+    policyVector extOps epsExt (RP.Discount.walker t) t (kv.map fun ar => (ar.1, Ext.fin ar.2))
+      = some (kv.map fun ar => (ar.1, Ext.fin (prob epsQ (divisor t) (kv.map (·.2)) ar.2))) :=
+  C09_fixed_finite epsQ_pos divisor t (divisor_pos t).ne' kv hne
+
 /-! ## binary32 witnesses (kernel evaluation of Lean's IEEE-754 model of `Float32`) -/
 
 def f32 (bits : Nat) : Float32 := Float32.ofBits (UInt32.ofNat bits)
